@@ -99,3 +99,22 @@ package maptile
 //@   ensures z <= 30 && ll[0] >= -180 && ll[0] <= 180 ==> result.X < (1 << z)
 //@   ensures z <= 30 && (ll[1] < -85.0511 || ll[1] > 85.0511) ==> result.Y < (1 << z)
 //@   ensures result.Z == z
+
+//@ func (Tile).Siblings(t)
+//@   mode bv
+//@   modifies nothing
+//@   ensures len(result) == 4
+
+// documented misuse (zoomStart > zoomEnd, tile.Z > zoomStart) panics; with the documented
+// precondition neither panic is reachable
+//@ func ChildrenInZoomRange(tile, zoomStart, zoomEnd)
+//@   mode bv
+//@   modifies nothing
+//@   requires zoomStart <= zoomEnd && tile.Z <= zoomStart
+
+// ---- neighbouring tiles and parent/children call mercator.ToGeo with identical arguments on
+// their shared edges (so the edge coordinates are bit-identical, whatever ToGeo computes)
+//@ lemma edge_neighbour_x: forall x uint32 :: x < (1 << 30) ==> same(float64(x) + 1.0 + 0.0, float64(x + 1) - 0.0)
+//@   mode bv
+//@ lemma edge_parent_child: forall x uint32, z uint32 :: z <= 29 && x < (1 << z) ==> same(float64(x) / float64(uint64(1) << uint64(z)), float64(2 * x) / float64(uint64(1) << uint64(z + 1)))
+//@   mode bv
